@@ -1059,6 +1059,22 @@ func (fr *Frame) execInstr(instr ssa.Instruction, st *State, pc T) T {
 		fr.havocGo(&in.Call, st)
 	case *ssa.Range:
 		fr.set(in, Val{Typ: in.Type(), Ts: nil, Tuple: []Val{fr.get(in.X)}})
+		if mt, ok := in.X.Type().Underlying().(*types.Map); ok && fr.isRoot && vc.rootUsesVisited() {
+			// ghost set of the keys this range has produced so far (contracts: visited(loop, key))
+			if _, ok := key64("k", vc.mapKeySort(mt)); ok {
+				if vc.rangeGhost == nil {
+					vc.rangeGhost = map[*ssa.Range]string{}
+				}
+				name := vc.rangeGhost[in]
+				if name == "" {
+					name = fmt.Sprintf("rng$%d", len(vc.rangeGhost)+1)
+					vc.rangeGhost[in] = name
+					vc.ghostTypes[name] = fsetType
+				}
+				vc.fsetTheory()
+				st.ghost[name] = []T{"((as const " + SortFSet + ") false)"}
+			}
+		}
 	case *ssa.Next:
 		fr.execNext(in, st, pc)
 	case *ssa.Select:
@@ -1677,6 +1693,24 @@ func (fr *Frame) execNext(in *ssa.Next, st *State, pc T) {
 	k := fr.mapKey(mt, kv)
 	v, present := vc.mapLookup(st, rg.X.Type(), m, k)
 	vc.assume(pc, Imp(ok, present))
+	if name := vc.rangeGhost[rg]; name != "" {
+		if g, has := st.ghost[name]; has {
+			ks := vc.mapKeySort(mt)
+			if k64, ok64 := key64(k, ks); ok64 {
+				// a key is produced at most once; when the range ends every key still in the map has been produced
+				// (unless the body inserts into a map of this type: then nothing is claimed at the end)
+				vc.assume(pc, Imp(ok, Not(Sel(g[0], k64))))
+				st.ghost[name] = []T{vc.define("g_"+name, SortFSet, Ite(ok, Sto(g[0], k64, True), g[0]))}
+				if !fr.loopInsertsInto(in, rg.X.Type()) {
+					dcl := vc.classMap(rg.X.Type(), "dom")
+					dsort := SortArr(SortRef, SortArr(ks, SortBool))
+					dom := Sel(vc.heapGet(st, dcl, dsort), m)
+					kk64, _ := key64("kk", ks)
+					vc.assume(pc, Imp(Not(ok), "(forall ((kk "+ks+")) (! (=> (select "+dom+" kk) (select "+g[0]+" "+kk64+")) :pattern ((select "+dom+" kk))))"))
+				}
+			}
+		}
+	}
 	fr.assumeAlive(st, pc, v)
 	kOut := kv
 	vOut := v
@@ -1687,6 +1721,38 @@ func (fr *Frame) execNext(in *ssa.Next, st *State, pc T) {
 		vOut = Val{Typ: tt.At(2).Type()}
 	}
 	fr.set(in, Val{Typ: in.Type(), Tuple: []Val{okV, kOut, vOut}})
+}
+
+// rootUsesVisited: the contract of the function under verification mentions visited(...): only then are map ranges
+// tracked (the exit fact is quantified; functions that do not ask for it keep their scripts unchanged).
+func (vc *VC) rootUsesVisited() bool {
+	if vc.RootFC == nil {
+		return false
+	}
+	for _, c := range vc.RootFC.Clauses {
+		if strings.Contains(c.Text, "visited(") {
+			return true
+		}
+	}
+	return false
+}
+
+// loopInsertsInto: some instruction of the function stores into a map of the given type inside a loop that contains
+// this Next (conservative: any MapUpdate on that map type anywhere in the function's loops that contain the Next).
+func (fr *Frame) loopInsertsInto(nx *ssa.Next, mapT types.Type) bool {
+	for _, li := range fr.loops {
+		if !li.body[nx.Block()] {
+			continue
+		}
+		for blk := range li.body {
+			for _, ins := range blk.Instrs {
+				if mu, ok := ins.(*ssa.MapUpdate); ok && types.Identical(mu.Map.Type(), mapT) {
+					return true
+				}
+			}
+		}
+	}
+	return false
 }
 
 func (fr *Frame) execSelect(in *ssa.Select, st *State, pc T) {
